@@ -95,7 +95,37 @@ add("C12", "model_checking",
     "exception delivered to the right awaiter; root lookup. value() through make_sync is exercised concretely.",
     "symbolic execution of the real code over symbolic schedules (CrossHair -> z3)", "S", "DESIGN.md 3/C12", S_NOTE)
 
-NOT_YET = {}
+add("C01", "translation_validation",
+    "End-to-end SMT translation validation through the real fluent API: generated Python modules (real lambdas, source strings and ast.Lambda objects; "
+    "captured local/global/class constants; one-line helpers; dataclass/NamedTuple records; comprehensions; typed model with defaults; result-format terminals; "
+    "sibling branches) build chains on an untyped and a typed dataset; the AST value_async() hands to the executor and the AST after the three backend passes "
+    "are compared by z3 with the chain as written (Q0/Q1/Q2 for all datasets up to length N). The truth AST itself is validated by running the generated chain "
+    "with CPython on a model dataset.",
+    "SMT translation validation of the emitted query against the user's chain (z3, QF_UFLIA)", "T", "DESIGN.md 3/C01", T_NOTE)
+add("C04", "other",
+    "Bounded symbolic execution (CrossHair/z3) of capture rewriting on real closures: the captured value (Union[int, bool, str, float, bytes] or a "
+    "non-transportable stand-in), the other captured ints and a post-call rebinding history are symbolic over 20 scoping shapes; oracle is the harness's own "
+    "scope analysis (exactly the free occurrences become constants holding the value itself; ValueError exactly for non-transportable values).",
+    "symbolic execution of the real code (CrossHair -> z3), per-partition 'confirmed over all paths'", "S", "DESIGN.md 3/C04", S_NOTE)
+add("C05", "translation_validation",
+    "SMT translation validation through the real ds.Select(callable): generated modules define one-line helpers (def and lambda, helpers calling helpers, nested "
+    "lambdas re-using parameter names, bare-parameter bodies, non-inlinable helpers) and call them positionally / by keyword / re-ordered; the emitted lambda is "
+    "compared by z3 with the lambda as written where each helper means its own return expression (read by CPython from the generated text); counterexamples are "
+    "replayed with the real Python helper functions.",
+    "SMT translation validation of the emitted lambda against Python's meaning of the helper call (z3)", "T", "DESIGN.md 3/C05", T_NOTE)
+add("C08", "other",
+    "Bounded symbolic execution (CrossHair/z3) of the type follower over a table of typed expressions on a class model with inheritance, generic classes (with "
+    "concrete and generic subclasses, direct Generic base), custom Iterable subclass, registered collection class, dataclass fields; a solver-split promotion "
+    "table (operand kinds x operators x forms, unbounded constants); stream-level item types incl. the non-boolean Where refusal. Structure-dominated: the "
+    "solver contributes exhaustiveness of the decoded space.",
+    "symbolic execution of the real code (CrossHair -> z3), per-partition 'confirmed over all paths'", "S", "DESIGN.md 3/C08", S_NOTE)
+add("C09", "other",
+    "Bounded symbolic execution (CrossHair/z3) of the callback machinery: a symbolic 7-bit mask decides which of 7 call sites (class, method, both, rewriting "
+    "method callback, function processor, parameterized property, none) are present at depth 0-2 in three placements; the property's parameter is an unbounded "
+    "symbolic int that must reach the callback by value; oracle: invocation log, class-before-method, MetaData tags on the args[0] chain, emitted rewrite.",
+    "symbolic execution of the real code (CrossHair -> z3), per-partition 'confirmed over all paths'", "S", "DESIGN.md 3/C09", S_NOTE)
+
+NOT_YET = {"C03": "in progress: layout-enumerating translation validation (see DESIGN.md 3/C03)"}
 
 
 def main():
